@@ -46,7 +46,7 @@ def _case_script(c):
 def _prior(rng, tier, uniq):
     p = G.gen_snapshot(rng, tier, uniq, valid_bias=1.0)
     # keep the prior acceptable whatever the generator drew
-    p["waveform"] = p["waveform"] if p.get("sample_count") and isinstance(p.get("sample_rate"), float) else b""
+    G.storable_waveform(p)
     if isinstance(p.get("sample_rate"), str):
         p["sample_rate"] = 44100.0
     return p
